@@ -8,13 +8,147 @@
    registration that recycles the handler slot).  Server.tla with the unsynchronised
    capability map loses ServerUp.  ServerHostile.tla: ServerUp / AllServe for every
    hostile sequence of the alphabet.
+   SignalLockPath.tla (saturation): lock-owner / bounded-queue model of the request path
+   reader -> handler queue -> consumer -> service table -> mailbox -> method, with the end
+   points' handlersMutex, the service's RWMutex (a pending writer shuts new readers out),
+   the non-blocking enqueue into the handler queue and the blocking enqueue into the
+   mailbox, for every script of one hostile client (slow call, call, post, registerEvent,
+   unregisterEvent, terminate, disconnect) while another client asks every object:
+   NoWaitCycle, NoLockHeldWhileEnqueuing, SlowDelaysOnlyItsOwnMail, ServerUp and, under
+   fairness, OthersServed; each of four named deviations must be caught by TLC.
 2. The hostile sequences ServerHostile.tla enumerates are replayed by a raw client against
    a real server (directory + probe service, two objects) running in a child process over
    unix sockets; after each one a fresh client probes every object (answer within the
-   bound, process alive).
+   bound, process alive).  Saturation sequences: the probe service has a method that
+   waits for a gate the harness opens through the child's stdin; `slow` starts it, floods
+   of calls / posts on one or two connections, registrations and a terminate pile up
+   behind it, another client calls meanwhile; once the gate is open that client's calls
+   are answered and every object no terminate names serves.  The schedules of the wait
+   cycles TLC finds with the deviations on are replayed too, at the real capacities.
 """
 import json, os, random
+from concurrent.futures import ThreadPoolExecutor
 from vlib import Infra, log
+
+# ---------------------------------------------------------------------------
+# SignalLockPath.tla
+# ---------------------------------------------------------------------------
+PATH_QUICK = ["term", "flood", "mix"]
+PATH_THOROUGH = ["mix3_thorough", "flood6_thorough", "two_thorough", "term2_thorough", "cap2_thorough"]
+PATH_DEV = [  # cfg, what must be violated, deviation
+    ("dev_receive", "NoWaitCycle", "Dev_ReceiveHoldsLockWhileEnqueuing: serviceImpl.Receive keeps the read lock while it waits for room "
+     "in the mailbox; terminate's Service.Remove (write lock) waits for that reader, which waits for the mailbox goroutine that runs Remove"),
+    ("dev_dispatch", "NoWaitCycle", "Dev_DispatchBlocksOnFullQueue: dispatch waits for room in the handler queue with handlersMutex held; "
+     "the consumer waits for room in the mailbox; the mailbox goroutine, in registerEvent, waits for handlersMutex"),
+    ("dev_giveup", "OthersServed", "Dev_ConsumerGivesUpOnFullMailbox: the consumer goroutine of the OTHER client's connection ends when the "
+     "mailbox the hostile client has filled is full: that client is never answered"),
+    ("dev_closebox", "ServerUp", "Dev_RemoveClosesMailbox: Service.Remove closes the mailbox; a consumer that looked the box up before sends "
+     "on a closed channel: the process dies"),
+    ("noread", "OthersServed", "NOT a deviation - the code as found with NoRead = {h1}: a hostile client that does not read its socket; the "
+     "mailbox goroutine waits in SendReply, the object answers nobody (known finding C12-client-that-does-not-read)"),
+]
+PATH_EXPORT = ["devx_receive", "devx_dispatch", "devx_closebox"]
+OBJ = {"o1": "p1", "o2": "p2"}
+CONN = {"h1": "A", "h2": "B"}
+SCALE = {"call": ("flood_calls", 40), "post": ("flood_posts", 300), "reg": ("reg_many", 5), "unreg": ("unreg_many", 5),
+         "term": ("terminate", 3)}
+
+
+def step(k, t, a, x):
+    return {"op": {"k": k, "t": t, "a": a, "x": x}, "ans": "none", "srv": []}
+
+
+def scaled(sched, controls_first):
+    """A schedule of SignalLockPath (capacities 1) as a sequence for the real server (capacities 10): the mailbox
+    goroutine the model's scheduler merely delays is held by the gated method, one call / post becomes a flood."""
+    msgs = [m for c in sorted(sched["script"]) for m in sched["script"][c]]
+    if not msgs:
+        return None
+    first = OBJ[msgs[0]["o"]]
+    ops = [step("slow", first, 100, "A")]
+    body = []
+    for m in msgs:
+        if m["k"] == "slow":
+            continue
+        k, n = SCALE[m["k"]]
+        st = step(k, OBJ[m["o"]], n, CONN[m["c"]])
+        if not body or body[-1] != st:
+            body.append(st)
+    if controls_first:   # what is to wait in the mailbox behind the slow call is sent before what fills the queues
+        body = [b for b in body if not b["op"]["k"].startswith("flood")] + [b for b in body if b["op"]["k"].startswith("flood")]
+    ops += body
+    for o in sorted(sched["asked"]):
+        ops.append(step("victim_call", OBJ[o], 100, ""))
+    gone = sorted({b["op"]["t"] for b in body if b["op"]["k"] == "terminate"})
+    return {"h": ops, "e": {"up": True, "serving": [t for t in ("dir", "p1", "p2") if t not in gone], "gone": gone}}
+
+
+SIGNAL_VARIANTS = (
+    ("orig", "duplicate user id: RemoveHandler of the existing user's handler, whose closer re-enters RemoveHandler"),
+    ("removeNew", "candidate repair 'remove the new handler': its closer finds the existing user and re-enters all the same"),
+    ("checkFirst", "candidate repair 'check before MakeHandler': a closer started by a disconnection still calls "
+                   "RemoveHandler with a stale slot id that a queued registration has recycled"))
+
+
+def design(ctx, thorough, hostile):
+    """Every TLC run of the check, a few at a time (they are independent): the design-level ones, and the enumerations of
+    ServerHostile (`hostile`: label, cfg, counted, limit, keywords).  Returns the schedules SignalLockPath exports with a
+    deviation on, scaled for the real server, and the results of the enumerations."""
+    jobs = [("prop", ("SignalLock", "MCSignalLock_fixed.cfg"))]
+    jobs += [("prop", ("SignalLockPath", "MCSignalLockPath_%s.cfg" % c)) for c in PATH_QUICK + (PATH_THOROUGH if thorough else [])]
+    jobs += [("dev", ("SignalLock", "MCSignalLock_%s.cfg" % v, "NoSelfDeadlock", what)) for v, what in SIGNAL_VARIANTS]
+    jobs += [("dev", ("MCServer", "MCServer_dev_capmap.cfg", "ServerUp", "firewall reads the capability map while service 0 writes it"))]
+    jobs += [("dev", ("ServerHostile", "ServerHostile_dev.cfg", "*", "duplicate user id / authenticate flood / hostile count"))]
+    jobs += [("dev", ("ServerHostile", "ServerHostile_dev_sat.cfg", "AllServe",
+                      "a lock held while a queue is full (SignalLockPath.tla) stops the service / the object"))]
+    jobs += [("dev", ("ServerHostile", "ServerHostile_dev_noread.cfg", "AllServe",
+                      "Dev_SendBlocksOnUnreadSocket (the code as found): the reply to a client that does not read blocks the object"))]
+    jobs += [("dev", ("SignalLockPath", "MCSignalLockPath_%s.cfg" % c, prop, dev)) for c, prop, dev in PATH_DEV]
+    jobs += [("export", ("SignalLockPath", "MCSignalLockPath_%s.cfg" % c)) for c in PATH_EXPORT]
+    jobs += [("hostile", h) for h in hostile]
+
+    def one(job):
+        kind, what = job
+        if kind == "hostile":
+            label, cfg, counted, limit, kw = what
+            return job, ctx.tlc("ServerHostile", cfg, workers=1, count=False, **kw)
+        if kind == "prop":
+            return job, ctx.tlc(what[0], what[1], workers=4 if thorough else 2, count=False, timeout=3000 if thorough else 1200)
+        return job, ctx.tlc(what[0], what[1], workers=2, count=False, expect_ok=(kind == "export"), timeout=900)
+
+    with ThreadPoolExecutor(max_workers=3 if thorough else 4) as ex:
+        results = list(ex.map(one, jobs))
+    cases, seen, nsched, enumerated = [], set(), {}, []
+    for (kind, what), r in results:
+        if kind == "hostile":
+            if what[2]:
+                ctx.states += r.distinct
+                ctx.transitions += r.generated
+            enumerated.append((what, r))
+        elif kind == "prop":
+            if not r.ok:
+                raise Infra("design check %s/%s failed: %s\n%s" % (what[0], what[1], r.violated, "\n".join(r.out.splitlines()[-60:])))
+            ctx.states += r.distinct
+            ctx.transitions += r.generated
+        elif kind == "dev":
+            module, cfg, prop, dev = what
+            hit = prop in r.violated or (prop == "OthersServed" and "<temporal>" in r.violated) or (prop == "*" and r.violated)
+            if not hit:
+                raise Infra("%s %s: expected %s to be violated, got %s" % (module, cfg, prop, r.violated))
+            ctx.model_only.append({"config": cfg, "violates": prop if prop != "*" else r.violated[0], "deviation": dev})
+        else:
+            X = r.printed("X")
+            if not X:
+                raise Infra("%s %s exported no schedule" % what)
+            nsched[what[1]] = len(X)
+            for sched in X:
+                for cf in (False, True):
+                    cs = scaled(sched, cf)
+                    key = json.dumps(cs, sort_keys=True)
+                    if cs and key not in seen:
+                        seen.add(key)
+                        cases.append(cs)
+    return cases, nsched, enumerated
 
 
 def export(r, f, limit=None, rng=None):
@@ -32,48 +166,40 @@ def run(ctx):
     thorough = ctx.tier == "thorough"
     rng = random.Random(ctx.seed)
 
-    # 1. design
-    ctx.design_check("SignalLock", "MCSignalLock_fixed.cfg", workers=6, timeout=1200)
-    for variant, what in (("orig", "duplicate user id: RemoveHandler of the existing user's handler, whose closer re-enters RemoveHandler"),
-                          ("removeNew", "candidate repair 'remove the new handler': its closer finds the existing user and re-enters all the same"),
-                          ("checkFirst", "candidate repair 'check before MakeHandler': a closer started by a disconnection still calls "
-                                         "RemoveHandler with a stale slot id that a queued registration has recycled")):
-        r = ctx.tlc("SignalLock", "MCSignalLock_%s.cfg" % variant, workers=4, count=False, expect_ok=False, timeout=900)
-        if "NoSelfDeadlock" not in r.violated:
-            raise Infra("SignalLock variant %s: expected NoSelfDeadlock to be violated, got %s" % (variant, r.violated))
-        ctx.model_only.append({"config": "MCSignalLock_%s.cfg" % variant, "violates": "NoSelfDeadlock", "deviation": what})
-    r = ctx.tlc("MCServer", "MCServer_dev_capmap.cfg", workers=2, count=False, expect_ok=False, timeout=600)
-    if "ServerUp" not in r.violated:
-        raise Infra("Server with Dev_CapMapUnsynchronised: expected ServerUp to be violated")
-    ctx.model_only.append({"config": "MCServer_dev_capmap.cfg", "violates": "ServerUp",
-                           "deviation": "firewall reads the capability map while service 0 writes it"})
-    r = ctx.tlc("ServerHostile", "ServerHostile_dev.cfg", workers=1, count=False, expect_ok=False, timeout=600)
-    if not r.violated:
-        raise Infra("ServerHostile with the deviations on: expected a violation")
+    # 1. design, and the enumeration of the hostile sequences
+    if thorough:
+        hostile = [("full/1", "ServerHostile_full1.cfg", True, None, dict(timeout=600)),
+                   ("small/3", "ServerHostile_small3.cfg", True, None, dict(timeout=900)),
+                   ("full/2 (sample)", "ServerHostile_full2.cfg", True, 15000, dict(timeout=1800)),
+                   ("small/5 (simulated)", "ServerHostile_small5.cfg", False, None, dict(timeout=900, simulate="num=3000", depth=6, seed=ctx.seed)),
+                   ("saturation: sat/4", "ServerHostile_sat4.cfg", True, None, dict(timeout=900)),
+                   ("saturation: sat/6 (simulated)", "ServerHostile_sat6.cfg", False, None,
+                    dict(timeout=900, simulate="num=2000", depth=7, seed=ctx.seed)),
+                   ("noread/4 (sample)", "ServerHostile_noread4.cfg", True, 150, dict(timeout=600))]
+    else:
+        hostile = [("full/1", "ServerHostile_full1.cfg", True, None, dict(timeout=600)),
+                   ("small/2", "ServerHostile_small2.cfg", True, None, dict(timeout=600)),
+                   ("small/3 (sample)", "ServerHostile_small3.cfg", False, 700, dict(timeout=600)),
+                   ("small/5 (simulated)", "ServerHostile_small5.cfg", False, None, dict(timeout=600, simulate="num=300", depth=6, seed=ctx.seed)),
+                   ("saturation: satcore/4", "ServerHostile_satcore4.cfg", True, None, dict(timeout=600)),
+                   ("saturation: sat/4 (sample)", "ServerHostile_sat4.cfg", False, 400, dict(timeout=600)),
+                   ("noread/3", "ServerHostile_noread3.cfg", True, None, dict(timeout=600))]
+    sched_cases, nsched, enumerated = design(ctx, thorough, hostile)
 
     # 2. hostile sequences
     cases = ctx.path("c12-cases.ndjson")
     n = {}
-    with open(cases, "w") as f:
-        g = ctx.tlc("ServerHostile", "ServerHostile_full1.cfg", workers=1, timeout=600)
-        n["full/1"] = export(g, f)
-        if thorough:
-            g = ctx.tlc("ServerHostile", "ServerHostile_small3.cfg", workers=1, timeout=900)
-            n["small/3"] = export(g, f)
-            g = ctx.tlc("ServerHostile", "ServerHostile_full2.cfg", workers=1, timeout=1800)
-            n["full/2 (sample)"] = export(g, f, 15000, rng)
-            g = ctx.tlc("ServerHostile", "ServerHostile_small5.cfg", workers=1, count=False, timeout=900,
-                        simulate="num=3000", depth=6, seed=ctx.seed)
-            n["small/5 (simulated)"] = export(g, f)
-        else:
-            g = ctx.tlc("ServerHostile", "ServerHostile_small2.cfg", workers=1, timeout=600)
-            n["small/2"] = export(g, f)
-            g = ctx.tlc("ServerHostile", "ServerHostile_small3.cfg", workers=1, count=False, timeout=600)
-            n["small/3 (sample)"] = export(g, f, 700, rng)
-            g = ctx.tlc("ServerHostile", "ServerHostile_small5.cfg", workers=1, count=False, timeout=600,
-                        simulate="num=300", depth=6, seed=ctx.seed)
-            n["small/5 (simulated)"] = export(g, f)
-    total = sum(n.values())
+    noread = ctx.path("c12-noread.ndjson")
+    with open(cases, "w") as f, open(noread, "w") as fn:
+        for (label, cfg, counted, limit, kw), g in enumerated:
+            # the sequences of a client that does not read go to a run of their own: each hit of the known finding costs two
+            # probe time-outs, and the harness stops a run in which hangs pile up
+            n[label] = export(g, fn if label.startswith("noread") else f, limit, rng)
+        # the wait cycles / crashes TLC finds in SignalLockPath with a deviation on, at the real capacities
+        for cs in sched_cases:
+            f.write(json.dumps(cs) + "\n")
+        n["saturation: schedules of SignalLockPath's deviations, scaled"] = len(sched_cases)
+    total = sum(v for k, v in n.items() if not k.startswith("noread"))
     res = ctx.harness_json("system", ["c12-run", cases, "20000" if thorough else "4000"], timeout=2700)
     ctx.traces += res["evaluations"]
     ctx.failures(res["failures"])
@@ -81,6 +207,11 @@ def run(ctx):
         ctx.sample(s)
     if res["evaluations"] < total and len(res["failures"]) == 0:
         raise Infra("harness replayed %d of %d sequences" % (res["evaluations"], total))
+
+    # a client that does not read its socket
+    nres = ctx.harness_json("system", ["c12-run", noread, "100"], timeout=2700)
+    ctx.traces += nres["evaluations"]
+    ctx.failures(nres["failures"])
 
     # the authenticate flood of DESIGN 10, at full size
     flood = ctx.path("c12-flood.ndjson")
@@ -102,13 +233,20 @@ def run(ctx):
         raise Infra("self-test: a probe of an object that does not answer was not reported")
 
     ctx.extra.update({"sequences": n, "sequences_replayed": res["evaluations"], "server_restarts": res["extra"].get("server_restarts"),
+                      "saturation_sequences_replayed": res["extra"].get("saturation_sequences"), "path_model_schedules": nsched,
                       "hostile_answers": res["extra"].get("hostile_answers"), "fail_count": res.get("fail_count"),
                       "explanation": "lock-owner model checked for every script of 3 requests x 2 users x 2 connections with a "
-                                     "disconnection at any point; every hostile sequence of the bounded alphabet replayed against a real "
-                                     "server process, each followed by a probe of every object from a fresh client"})
+                                     "disconnection at any point; lock-owner / bounded-queue model of the request path (capacities 1) "
+                                     "checked for every script of the hostile client; every hostile sequence of the bounded alphabets "
+                                     "(incl. saturation behind a gated method) replayed against a real server process, each followed by "
+                                     "a probe of every object from a fresh client"})
     ctx.assumptions += [
         "bounded time = 5 s (10 s thorough) on a local unix socket, asked twice before a hang is reported",
         "the server child runs with RLIMIT_AS = 6 GB: a request that makes a decoder ask for more aborts the process instead of "
         "exhausting the machine",
-        "requests whose documented purpose is removal (terminate with the object's own id, unregisterService) are not part of the alphabet",
+        "terminate with the object's own id is part of the saturation alphabets: the object it names is exempt from the probe "
+        "(and a call another client had pending on it may be answered by an error); unregisterService is not part of the alphabets",
+        "saturation: while the gate of the slow method is closed nothing is demanded of the slow object nor of the flooded "
+        "connections; the gate is opened through the server child's stdin; the hostile client reads its sockets (a client that "
+        "stops reading is outside the alphabet: see design-notes/C12.md, not covered)",
     ]
